@@ -244,22 +244,25 @@ def handle (c : Case) : CaseOut := Id.run do
         else if left.isEmpty || right.isEmpty then
           verdict := .fail "an empty side"
         else if distinct then
-          if !Bisection.structOK inp.edges jsorted kSpec flow left right then
-            verdict := .fail (Bisection.structWhy inp.edges jsorted kSpec flow left right)
-          else if !left.all (fun x => Bisection.rho S T x < FlowSpec.nNodes ces) then
-            verdict := .fail "the left set contains a node that is not part of the contracted flow graph (its only edges are self-loops): left is not inclusion-minimal"
-          else if ces.isEmpty then
-            if flow != 0 then
-              verdict := .fail "contracted graph has no edges: expected flow 0"
-          else
-            match judgeMaxFlow ces with
-            | none => verdict := .fail "judge: EdmondsKarp model out of fuel"
-            | some (mf, res) =>
-              jflow := mf
-              let nn := FlowSpec.nNodes ces
-              let (_, tree) := bfsTree nn res.toArray
+          -- the certificate: a maximum flow of the contracted graph and a reachability tree, computed here,
+          -- only CHECKED by `Bisection.checkerFast` (= `checkerOK`, sound by `Tbx.Props.C03.checker_sound`)
+          match (if ces.isEmpty then some ((0 : Int), []) else judgeMaxFlow ces) with
+          | none => verdict := .fail "judge: EdmondsKarp model out of fuel"
+          | some (mf, res) =>
+            jflow := mf
+            let (_, tree) := bfsTree (FlowSpec.nNodes ces) res.toArray
+            if !Bisection.checkerFast inp.edges jsorted kSpec flow left right res tree then
+              -- diagnosis only
               let side := Bisection.sideOf inp.edges jsorted kSpec left
-              if !Bisection.cutCertFast ces 0 1 res flow side tree then
+              if !Bisection.preOK inp.edges jsorted kSpec then
+                verdict := .fail "judge: domain check failed (driver bug: should have been skipped)"
+              else if !Bisection.structOK inp.edges jsorted kSpec flow left right then
+                verdict := .fail (Bisection.structWhy inp.edges jsorted kSpec flow left right)
+              else if !left.all (fun x => Bisection.rho S T x < FlowSpec.nNodes ces) then
+                verdict := .fail "the left set contains a node that is not part of the contracted flow graph (its only edges are self-loops): left is not inclusion-minimal"
+              else if ces.isEmpty then
+                verdict := .fail s!"contracted graph has no edges: expected flow 0, reported {flow}"
+              else
                 verdict := .fail (Bisection.cutCertWhy ces 0 1 res flow side tree)
         else
           -- tied keys: structural clauses for some admissible order
